@@ -176,6 +176,7 @@ func rulesC20(c *Ctx) {
 
 	c.c20Errors()
 	c.c20Cache()
+	c.c20CacheStore()
 	c.c20Status()
 }
 
@@ -683,6 +684,57 @@ func (c *Ctx) c20Cache() {
 		// advertised NUT-19 ttl is in seconds; a bare number of seconds read as a Duration is nanoseconds)
 		okT, whyT := c.c20CacheLifetime(sets[0])
 		R.Check("R4", hk, "cached response lives for the advertised time", c.P.InstrPos(sets[0]), okT, "the entry expires after a whole number of seconds (a constant duration of at least one second), not after nanoseconds", whyT)
+	}
+}
+
+// c20CacheStore: the cache itself. Get answers (value, true) only behind a hit of the very key asked for and hands
+// back that entry's value; Set stores the bytes given under the key given. ("no other request is ever served from
+// that cache" rests on the map being keyed and read by the full key.)
+func (c *Ctx) c20CacheStore() {
+	R := c.R
+	if f := c.P.Func("mint.(*Cache).Get"); f != nil && len(f.Params) >= 2 {
+		fk := c.P.FuncKey(f)
+		o := c.P.OriginsOf(f)
+		recv, key := "P:"+f.Params[0].Name(), "P:"+f.Params[1].Name()
+		entry := recv + ".items[" + key + "]"
+		hit := &Cond{Name: "the key is in the cache", Match: func(ft *Fact, _ *Origins) bool {
+			return ft.Kind == "bool" && ft.Pos && ft.A != nil && ft.A.String() == "ok("+entry+")"
+		}}
+		n := 0
+		for _, r := range Returns(f) {
+			if len(r.Results) != 2 || isConst(o.Of(r.Results[1]), "false") {
+				continue
+			}
+			n++
+			v := o.Of(r.Results[0])
+			R.Check("R4", fk, "a hit returns the entry stored under the key asked for", c.P.InstrPos(r), v.String() == entry+".value" && isConst(o.Of(r.Results[1]), "true"),
+				"Get returns the value of items[key]", "returns "+short(v.String(), 100)+" ; "+short(o.Of(r.Results[1]).String(), 40))
+			ok, why := o.Requires(r, hit)
+			R.Check("R4", fk, "found <= key present", c.P.InstrPos(r), ok, "Get reports a hit only when the key is in the map", why)
+		}
+		if n == 0 {
+			R.Check("R4", fk, "a hit returns the entry stored under the key asked for", c.P.Pos(f.Pos()), false, "Get can report a hit", "no return with found = true")
+		}
+	} else {
+		R.Unresolved("R4", "mint.(*Cache).Get", "not found")
+	}
+	if f := c.P.Func("mint.(*Cache).Set"); f != nil && len(f.Params) >= 3 {
+		fk := c.P.FuncKey(f)
+		o := c.P.OriginsOf(f)
+		key, item := "P:"+f.Params[1].Name(), "P:"+f.Params[2].Name()
+		ok, why := false, "no store into the map"
+		for _, b := range f.Blocks {
+			for _, in := range b.Instrs {
+				if mu, isMu := in.(*ssa.MapUpdate); isMu {
+					k, v := o.Of(mu.Key), project(o.Of(mu.Value), "value")
+					ok = k.String() == key && v.String() == item
+					why = "stores " + short(v.String(), 60) + " under " + short(k.String(), 60)
+				}
+			}
+		}
+		R.Check("R4", fk, "Set stores the given bytes under the given key", c.P.Pos(f.Pos()), ok, "items[key] = {value: item, ...}", why)
+	} else {
+		R.Unresolved("R4", "mint.(*Cache).Set", "not found")
 	}
 }
 
